@@ -3,8 +3,10 @@ package mon
 import (
 	"encoding/json"
 	"fmt"
+	"os"
 	"path/filepath"
 	"strings"
+	"syscall"
 	"time"
 
 	"verif/harness/internal/run"
@@ -195,8 +197,7 @@ var kC16ArgText = run.NewKind("c16.argtext", func(c *run.Ctx, t c16ArgTextCase) 
 })
 
 func c16ArgTextCases() []c16ArgTextCase {
-	invalid := []string{"", " ", "\n", "\t \r\n", "1 2", "1 x", "[1] [2]", "{}{}", "nul", "1,", "[1,]", "{\"a\":}", "\"abc", "1 2 3", "null null", "[] x", "// c", "# c", "1 #c", "'a'", "tru", "-", "+1", "01", "1.", ".5", "\x00", "1\x00", "NaN", "[1 2]", "{\"a\" 1}", "\"\\x\"", "]", "1 ]", "1}"}
-	valid := []string{"1", " 1", "1 ", "\n[1,2]\n", "\t{\"a\":[null]}\r\n", "null", "\"a b\"", " \"\" ", "-0", "1e1000", "100000000000000000000000000001", "[]", "{}", "false", " \n\t\r [ 1 , {\"a\" : \"\\u00e9\"} ] \r\t\n "}
+	invalid, valid := c16NotOneJSON, c16OneJSON
 	var out []c16ArgTextCase
 	for _, f := range []string{"argjson", "jsonargs", "jsonargs-second"} {
 		for _, t := range invalid {
@@ -210,4 +211,91 @@ func c16ArgTextCases() []c16ArgTextCase {
 		}
 	}
 	return out
+}
+
+// texts that are not exactly one JSON value, and texts that are
+var c16NotOneJSON = []string{"", " ", "\n", "\t \r\n", "1 2", "1 x", "[1] [2]", "{}{}", "nul", "1,", "[1,]", "{\"a\":}", "\"abc", "1 2 3", "null null", "[] x", "// c", "# c", "1 #c", "'a'", "tru", "-", "+1", "01", "1.", ".5", "\x00", "1\x00", "NaN", "[1 2]", "{\"a\" 1}", "\"\\x\"", "]", "1 ]", "1}",
+	"[1]]", "1]", "{\"a\":1}}", "[1] ] and anything else", "null][", "[1]}", "{}]", "\"a\"]", "true}", "[[1]]]", " [ ] ] ", "{\"a\":[1]]}", "1 }", "[1],", "[1]:", "{}:", "1:2", "[1]\"", "1e", "1e+", "-.5", "0x10", "1_000", "Infinity", "-Infinity", "nan", "[,1]", "{,}", "{\"a\":1,}", "[1,,2]", "\"\\ud800\\u\"", "\"tab\there\"", "\"nl\nhere\""}
+var c16OneJSON = []string{"1", " 1", "1 ", "\n[1,2]\n", "\t{\"a\":[null]}\r\n", "null", "\"a b\"", " \"\" ", "-0", "1e1000", "100000000000000000000000000001", "[]", "{}", "false", " \n\t\r [ 1 , {\"a\" : \"\\u00e9\"} ] \r\t\n ",
+	"[[]]", "[{}]", "{\"a\":{\"b\":[]}}", "\"]\"", "\"}\"", "[\"]\"]", "{\"]\":\"}\"}", "1E5", "1e-5", "-1.5e+3", "0.0", "\"\\ud83d\\ude00\"", "\"\\\\\"", "[1,[2,[3,[4]]]]", " true "}
+
+// c16.special: input files that are not regular files — /dev/stdin, a named pipe, a symbolic link, /dev/null — are
+// read like any other, in argument order.
+
+type c16SpecialCase struct {
+	Args      []string // flags and query; the file arguments follow
+	Slurpfile bool
+}
+
+var kC16Special = run.NewKind("c16.special", func(c *run.Ctx, t c16SpecialCase) *run.Fail {
+	e, err := c16NewEnv(c)
+	if err != nil {
+		c.Inconclusive("no-temp-dir")
+		return nil
+	}
+	defer e.close()
+	if e.write("a.json", "1 2\n") != nil || e.write("z.json", "7 8") != nil || e.write("target.json", "5\n6\n") != nil {
+		c.Inconclusive("no-temp-dir")
+		return nil
+	}
+	fifo := filepath.Join(e.dir, "pipe.json")
+	if err := syscall.Mkfifo(fifo, 0o644); err != nil {
+		c.Inconclusive("no-fifo")
+		return nil
+	}
+	if os.Symlink("target.json", filepath.Join(e.dir, "link.json")) != nil {
+		c.Inconclusive("no-symlink")
+		return nil
+	}
+	// a writer for the named pipe: opens it (blocks until the command opens it for reading), writes, closes
+	done := make(chan struct{})
+	go func() {
+		defer close(done)
+		f, err := os.OpenFile(fifo, os.O_WRONLY, 0)
+		if err != nil {
+			return
+		}
+		f.WriteString("3 4\n")
+		f.Close()
+	}()
+	files := []string{"a.json", "pipe.json", "link.json", "/dev/null", "/dev/stdin", "z.json"}
+	argv := append(append([]string{}, t.Args[:max(len(t.Args)-1, 0)]...), files...)
+	if t.Slurpfile {
+		argv = []string{"-nc", "--slurpfile", "p", "pipe.json", "--slurpfile", "l", "link.json", "--slurpfile", "s", "/dev/stdin", "[$p, $l, $s]"}
+	}
+	e.n++
+	c.Count("process_runs", 1)
+	r := run.CLI(run.CLIOpt{Args: argv, Dir: e.dir, Stdin: []byte("\"from stdin\"\n"), Timeout: 30 * time.Second})
+	// release the writer if the command never opened the pipe
+	if rf, err := os.OpenFile(fifo, os.O_RDONLY|syscall.O_NONBLOCK, 0); err == nil {
+		<-done
+		rf.Close()
+	}
+	if c16Broken(c, r) {
+		return nil
+	}
+	desc := fmt.Sprintf("gojq %q (a.json regular, pipe.json a named pipe, link.json a symbolic link)", argv)
+	got := strings.Join(strings.Fields(string(r.Stdout)), " ")
+	want := t.Args[len(t.Args)-1]
+	if t.Slurpfile {
+		want = `[[3,4],[5,6],["from stdin"]]`
+	}
+	if r.Code != 0 || got != want {
+		return run.Failf("%s: exit %d, stdout %s, stderr %s; expected %s", desc, r.Code, run.Clip(string(r.Stdout)), run.Clip(string(r.Stderr)), want)
+	}
+	c.Nontrivial(fmt.Sprint(argv))
+	return nil
+})
+
+// the last element of Args is the expected output (fields joined by one space), the one before it the query
+func c16SpecialCases() []c16SpecialCase {
+	return []c16SpecialCase{
+		{Args: []string{"-c", ".", `1 2 3 4 5 6 "from stdin" 7 8`}},
+		{Args: []string{"-nc", "[inputs]", `[1,2,3,4,5,6,"from stdin",7,8]`}},
+		{Args: []string{"-sc", ".", `[1,2,3,4,5,6,"from stdin",7,8]`}},
+		{Args: []string{"-nc", "[inputs | input_filename] | unique", `["/dev/stdin","a.json","link.json","pipe.json","z.json"]`}},
+		{Args: []string{"-c", "--stream", ".", `[[],1] [[],2] [[],3] [[],4] [[],5] [[],6] [[],"from stdin"] [[],7] [[],8]`}},
+		{Args: []string{"-nc", "reduce inputs as $x (0; . + 1)", "9"}},
+		{Slurpfile: true, Args: []string{"x"}},
+	}
 }
